@@ -603,12 +603,9 @@ class MapEntryCompiler(FieldCompiler):
 
     def __post_init__(self) -> None:
         """Explore nested types and set k_type and v_type if unset."""
-        map_entry = f"{self.proto_obj.name.replace('_', '').lower()}entry"
+        map_entry = self.proto_obj.type_name.split(".").pop()
         for nested in self.parent.proto_obj.nested_type:
-            if (
-                nested.name.replace("_", "").lower() == map_entry
-                and nested.options.map_entry
-            ):
+            if nested.name == map_entry and nested.options.map_entry:
                 # Get Python types
                 self.py_k_type = FieldCompiler(
                     source_file=self.source_file,
